@@ -1,7 +1,7 @@
 // C05 harness: single-threaded value semantics of the ring, white-box (both heads, buffer)
 #include "common.h"
 
-#include "../../repo/src/ring.c"
+#include "ring.c"  // found through -I <repo>/src
 
 static VAlloc va;
 
